@@ -271,8 +271,9 @@ PROPS["C07"] = {
 
 PROPS["C10"] = {
     "judge": judge_c10,
-    "modules": ["Gmsm.Props.C10", "Gmsm.Props.C10Complete", "Gmsm.Props.C10Host", "Gmsm.Props.C10Parents", "Gmsm.Props.C10Names"],
+    "modules": ["Gmsm.Props.C10", "Gmsm.Props.C10Complete", "Gmsm.Props.C10Host", "Gmsm.Props.C10Parents", "Gmsm.Props.C10Names", "Gmsm.Props.C10Leaf"],
     "theorems": [
+        "Props.C10.verify_leaf_permitted_irrelevant", "Props.C10.verify_leaf_permitted_nil", "Props.C10.isValid_leaf_permitted_irrelevant", "Props.C10.isValid_leaf_no_name_refusal", "Props.C10.verify_never_leaf_name_refusal", "Props.C10.buildChains_leaf_permitted", "Props.C10.ex_leaf_own_constraints_accepted",
         "Props.C10.verify_name_constraints_respected", "Props.C10.verify_without_dns_name", "Props.C10.verify_congr_host", "Props.C10.verify_dns_host_form", "Props.C10.isValid_no_name_refusal", "Props.C10.constraintName_none_iff",
         "Props.C10.goodSuffix_mono", "Props.C10.buildChains_mono", "Props.C10.candidates_mono", "Props.C10.verify_mono", "Props.C10.checkSigFrom_parent_ca", "Props.C10.checkSigFrom_child_key_irrelevant", "Props.C10.verify_issuers_ca", "Props.C10.findVerifiedParents_mono",
         "Props.C10.mem_findVerifiedParents", "Props.C10.buildChains_sound", "Props.C10.verify_sound",
@@ -383,8 +384,9 @@ PROPS["C14"] = {
 
 PROPS["C09"] = {
     "judge": judge_c09,
-    "modules": ["Gmsm.Props.C09", "Gmsm.Props.C09Ext", "Gmsm.Props.C09Names", "Gmsm.Props.C09Sig", "Gmsm.Props.C09Template"],
+    "modules": ["Gmsm.Props.C09", "Gmsm.Props.C09Ext", "Gmsm.Props.C09Names", "Gmsm.Props.C09Sig", "Gmsm.Props.C09Template", "Gmsm.Props.C09CRLIssuer"],
     "theorems": [
+        "Props.C09CRLIssuer.crlIssuer_parsed", "Props.C09CRLIssuer.crlIssuer_rawSubject", "Props.C09CRLIssuer.crlIssuer_template", "Props.C09CRLIssuer.crlIssuer_template_unchanged", "Props.C09CRLIssuer.crlIssuer_eq_certIssuer", "Props.C09CRLIssuer.crlIssuer_parsed_attributes", "Props.C09CRLIssuer.fill_extraNames", "Props.C09CRLIssuer.fill_names", "Props.C09CRLIssuer.onlyFixed_toRDNSequence", "Props.C09CRLIssuer.old_rule_only_fixed", "Props.C09CRLIssuer.old_rule_wrong_of_extra_attribute", "Props.C09CRLIssuer.old_rule_drops_extra_attributes", "Props.C09CRLIssuer.old_rule_reorders", "Props.C09CRLIssuer.old_rule_regroups", "Props.C09CRLIssuer.old_rule_differs",
         "Props.C09Template.seqWith_const", "Props.C09Template.aki_template_unchanged", "Props.C09Template.aki_sequence_independent", "Props.C09Template.aki_call_independent", "Props.C09Template.aki_no_stale_key_id", "Props.C09Template.old_aki_stale_witness", "Props.C09Template.csr_template_unchanged", "Props.C09Template.csr_sequence_independent", "Props.C09Template.csr_call_independent", "Props.C09Template.appendFirst_others", "Props.C09Template.merge_other_attributes_untouched", "Props.C09Template.unspecified_not_specified", "Props.C09Template.old_csr_stale_witness",
         "Props.C09.emitted_algorithm_names_scheme", "Props.C09.creators_pass_pss_options", "Props.C09.csr_pss_signed_with_pss", "Props.C09.hash_only_creator_mislabels_pss", "Props.C09Sig.decode_eq_strict", "Props.C09Sig.decode_injective", "Props.C09Sig.extra_member_rejected", "Props.C09Sig.extra_member_never_verifies", "Props.C09Sig.lenient_accepts_extra_member", "Props.C09Sig.lenient_malleable", "Props.C09Sig.decode_encSig",
         "Props.C09Names.san_roundtrip",
@@ -432,8 +434,9 @@ PROPS["C09"] = {
 
 PROPS["C17"] = {
     "tie_ops": ["ber2der", "p7pad", "p7unpad", "bmp", "unbmp", "p12fill"],
-    "modules": ["Gmsm.Props.C17", "Gmsm.Props.C17Idem", "Gmsm.Props.C17KDF", "Gmsm.Props.C17Key", "Gmsm.Props.C17Mem", "Gmsm.Props.C17Fix"],
+    "modules": ["Gmsm.Props.C17", "Gmsm.Props.C17Idem", "Gmsm.Props.C17KDF", "Gmsm.Props.C17Key", "Gmsm.Props.C17Mem", "Gmsm.Props.C17Fix", "Gmsm.Props.C18Empty"],
     "theorems": [
+        "Props.C18Empty.ber2der_empty_indefinite_byte", "Props.C18Empty.ber2der_indefinite",
         "Props.C17Key.sm2_bundle_topem", "Props.C17Key.topem_total", "Props.C17Fix.decode_sound", "Props.C17Fix.decode_encodeBags", "Props.C17Fix.decode_never_another_certificate", "Props.C17Fix.decodeAll_encodeBags", "Props.C17Fix.toPEM_encodeBags", "Props.C17Fix.decodeOld_returns_last_ca", "Props.C17Fix.pairAccepted_iff", "Props.C17Fix.gmt0010_pair_accepted", "Props.C17Fix.gmt0010_signer_verifies", "Props.C17Fix.encryptRecipients_iff", "Props.C17Fix.encryptRecipientsOld_agrees", "Props.C17Fix.concatSegments_prims", "Props.C17Fix.contentOf_segments", "Props.C17Fix.concatSegments_error", "Props.C17Fix.parseSignedData_fails_closed", "Props.C17Fix.parseSignedData_ok_iff",
         "Props.C17Mem.padMem_frame", "Props.C17Mem.padMem_caller_buffer_unchanged", "Props.C17Mem.padMem_value", "Props.C17Mem.padInPlace_writes_caller_memory", "Props.C17Key.encode_accepts_iff", "Props.C17Key.parse_marshal", "Props.C17Key.parse_marshal_std", "Props.C17Key.stdParams_sane", "Props.C17Key.accepted_key_decodes", "Props.C17Key.rsa_bundle_decodes", "Props.C17Key.topem_writes_inner_key", "Props.C17Key.unknown_algorithm_rejected", "Props.C17Key.rsa_alg_needs_rsa_key",
         "Props.C17KDF.pbkdf_eq_spec",
@@ -470,8 +473,9 @@ PROPS["C17"] = {
 
 PROPS["C18"] = {
     "judge": judge_parsers,
-    "modules": ["Gmsm.Props.C18", "Gmsm.Props.C18Linear", "Gmsm.Props.C18Output", "Gmsm.Props.C02", "Gmsm.Props.C17", "Gmsm.Props.C16", "Gmsm.Props.C16Codec", "Gmsm.Props.C14Codec", "Gmsm.Props.C17Idem", "Gmsm.Props.C15Codec", "Gmsm.Props.C09Names", "Gmsm.Props.C15KeyAgreement", "Gmsm.Props.C17Fix", "Gmsm.Props.C15Strict"],
+    "modules": ["Gmsm.Props.C18", "Gmsm.Props.C18Linear", "Gmsm.Props.C18Output", "Gmsm.Props.C02", "Gmsm.Props.C17", "Gmsm.Props.C16", "Gmsm.Props.C16Codec", "Gmsm.Props.C14Codec", "Gmsm.Props.C17Idem", "Gmsm.Props.C15Codec", "Gmsm.Props.C09Names", "Gmsm.Props.C15KeyAgreement", "Gmsm.Props.C17Fix", "Gmsm.Props.C15Strict", "Gmsm.Props.C18Empty"],
     "theorems": [
+        "Props.C18.readItems_ok_cases", "Props.C18Empty.ber2der_empty_indefinite_byte", "Props.C18Empty.ber2der_empty_indefinite", "Props.C18Empty.readObject_empty_indefinite", "Props.C18Empty.readObject_indefinite", "Props.C18Empty.ber2der_indefinite", "Props.C18Empty.ber2der_indefinite_members", "Props.C18Empty.startsEOC_encodeTo",
         "Props.C17Fix.parseSignedData_fails_closed",
         "Props.C15KeyAgreement.clientKx_never_panics", "Props.C15KeyAgreement.ecdheGM_always_error",
         "Props.C09Names.decSAN_total",
@@ -540,8 +544,9 @@ PROPS["C16"] = {
 }
 
 PROPS["C06"] = {
-    "modules": ["Gmsm.Props.C06", "Gmsm.Props.C06Keys", "Gmsm.Props.C07Stream", "Gmsm.Props.C15Complete", "Gmsm.Props.C06Read", "Gmsm.Props.C08Inter", "Gmsm.Props.C06KeyType"],
+    "modules": ["Gmsm.Props.C06", "Gmsm.Props.C06Keys", "Gmsm.Props.C07Stream", "Gmsm.Props.C15Complete", "Gmsm.Props.C06Read", "Gmsm.Props.C08Inter", "Gmsm.Props.C06KeyType", "Gmsm.Props.C06Offer"],
     "theorems": [
+        "Props.C06Offer.gmClientKx_eq_gmServable", "Props.C06Offer.gmClientKx_table", "Props.C06Offer.gm_offer_completable", "Props.C06Offer.gm_offer_complete", "Props.C06Offer.gmOffer_eq", "Props.C06Offer.gm_client_never_refuses_kx", "Props.C06Offer.peer_preference_completable", "Props.C06Offer.pick_unchanged",
         "Props.C06KeyType.signNilOpts_guarded", "Props.C06KeyType.gmCore_crash", "Props.C06KeyType.tlsCore_no_crash", "Props.C06KeyType.tlsPath_no_crash", "Props.C06KeyType.crash_needs_missing_guard", "Props.C06KeyType.never_crashes", "Props.C06KeyType.gmCore_original_crash", "Props.C06KeyType.original_crashes_iff", "Props.C06KeyType.gmCore_ok", "Props.C06KeyType.gmssl_needs_sm2_keys", "Props.C06KeyType.gmssl_sm2_completes", "Props.C06KeyType.pick_agrees", "Props.C06KeyType.getCertificate_tls", "Props.C06KeyType.tlsCore_version", "Props.C06KeyType.tls_version_independent", "Props.C06KeyType.sm2_client_cert_every_tls_version", "Props.C06KeyType.gmCore_local", "Props.C06KeyType.tlsCore_local", "Props.C06KeyType.repairs_are_local",
         "Props.C06.exported_suites_negotiable", "Props.C06.ecdhe_rsa_aes128_cbc_rows", "Props.C08Inter.client_verifies_via_intermediate", "Props.C08Inter.certList_leaves_first",
         "Props.C06Read.read_spec",
